@@ -153,8 +153,7 @@ def symmetric_extension_hierarchy(
     # The variable `states` is provided as a list of vectors. Transform them
     # into density matrices.
     if n_cols == 1:
-        for i, state_ket in enumerate(states):
-            states[i] = state_ket @ state_ket.conj().T
+        states = [state_ket @ state_ket.conj().T for state_ket in states]
 
     # Set default dimension if none was provided.
     if dim is None:
